@@ -478,8 +478,11 @@ def triage(rep, results, info=None, replayer=None):
                 lab = label_of(r.job, pid, desc)
                 if lab == pid: lab = generic_label(prop, r.job, pid)
                 bad.add(lab)
-        save_baseline(prop, ok_labels - bad)
-        base = ok_labels - bad
+        newbase = ok_labels - bad
+        if rep.partial and base is not None:
+            newbase = (set(base) - all_labels) | newbase      # partial run: only the labels generated now are refreshed
+        save_baseline(prop, newbase)
+        base = newbase
     if base is not None:
         missing = [b for b in base if b not in all_labels and not any(
             b.startswith('%s/%s/' % (prop, r.job.name)) or ('/%s/' % r.job.name.split('_', 1)[-1]) in b
